@@ -1,3 +1,186 @@
-/-! # C16 — property theorems (to be written) -/
+import BddVerif.Lemmas.VarSetNames
+import BddVerif.Lemmas.VarSetSat
+/-!
+# C16 — variable sets, literals and threshold constructors are faithful
+
+Property theorems about the model `Model/VarSet.lean` (helper lemmas: `Lemmas/VarSet*.lean`).
+`Gen.notInVarName` is regenerated from `src/lib.rs` (`NOT_IN_VAR_NAME`) on every run; `Gen.and_`, `Gen.or_`
+from `src/op_function.rs`.
+
+Conventions: `den A v` is the value of the diagram `A` under the valuation `v`; `canon n f` is the canonical
+array of the Boolean function `f` of the first `n` variables, so `A = canon n (den A)` says that `A` is
+canonical; an `Outcome.panic` is a Rust panic (the documented rejection of the constructors).
+-/
 namespace B.Props.C16
+open B B.VS
+
+/-! ## names ↔ variables -/
+
+/-- the forbidden characters are exactly those listed by `NOT_IN_VAR_NAME` … -/
+theorem valid_name_iff (s : String) : validName s = true ↔ ∀ c ∈ s.toList, c ∉ Gen.notInVarName :=
+  validName_iff s
+
+/-- … which contain every operator character of the expression grammar (so an accepted name can never be
+    confused with an operator by the expression parser) -/
+theorem forbidden_covers_grammar :
+    ∀ c ∈ ['!', '&', '|', '^', '=', '<', '>', '(', ')', '?', ':'], c ∈ Gen.notInVarName := by decide
+
+/-- `BddVariableSet::new` and the builder protocol (`make_variable` for every name in order, then `build`):
+    a list of names is accepted iff it is duplicate-free, every name is free of forbidden characters and it is
+    not too long (`new`: at most 65 533 names, builder: at most 65 534); otherwise the constructor panics.
+    An accepted set maps names to variables bijectively in declaration order (`Faithful`: `num_vars`,
+    `variables()`, `variable_names()`, `var_by_name(names[j]) = Some(j)`, `var_by_name(unknown) = None`,
+    `name_of(j) = names[j]`), and the builder returns the variables `0, 1, …` in order. -/
+theorem name_index_bijection (names : List String) :
+    (Acceptable 65533 names → ∃ vs, VS.new names = .ok vs ∧ Faithful vs names) ∧
+    (¬ Acceptable 65533 names → ∃ m, VS.new names = .panic m) ∧
+    (Acceptable 65534 names → ∃ vs, viaBuilder names = .ok (vs, List.range names.length) ∧ Faithful vs names) ∧
+    (¬ Acceptable 65534 names → ∃ m, viaBuilder names = .panic m) :=
+  ⟨new_ok names, new_panic names, viaBuilder_ok names, viaBuilder_panic names⟩
+
+/-- the round trips, for any faithful set: `var_by_name(name_of(x)) = Some(x)` for every variable of the set,
+    `name_of(var_by_name(s)) = s` for every name that is found, nothing is found for a name outside the list -/
+theorem name_round_trips {vs : VarSet} {names : List String} (h : Faithful vs names) :
+    (∀ x, x < vs.numVars → ∃ s, vs.nameOf x = .ok s ∧ vs.varByName s = some x) ∧
+    (∀ s x, vs.varByName s = some x → x < vs.numVars ∧ vs.nameOf x = .ok s) ∧
+    (∀ s, s ∉ names → vs.varByName s = none) := by
+  refine ⟨?_, ?_, h.unknown⟩
+  · intro x hx
+    rw [h.numVars] at hx
+    exact ⟨names[x], h.nameOf x hx, h.byName x hx⟩
+  · intro s x hs
+    obtain ⟨hx, e⟩ := h.byName_inv s x hs
+    rw [h.numVars]
+    exact ⟨hx, by rw [h.nameOf x hx, e]⟩
+
+/-- `new_anonymous(k)`: the names `x_0 … x_{k-1}` are pairwise distinct, the set is faithful; 65 534 and more
+    variables are refused -/
+theorem anonymous_set (k : Nat) :
+    (k ≤ 65533 → ∃ vs, newAnonymous k = .ok vs ∧ Faithful vs ((List.range k).map anonName)) ∧
+    (65533 < k → ∃ m, newAnonymous k = .panic m) :=
+  ⟨newAnonymous_ok k, newAnonymous_panic k⟩
+
+/-! ## constants and literals -/
+
+theorem Sem.canonical {n : Nat} {A : Arr} {f : (Nat → Bool) → Bool} (h : Sem n A f) : A = canon n (den A) := by
+  have : den A = f := funext h.den
+  rw [this]; exact h.eq
+
+/-- `mk_true` / `mk_false` denote the constants and are canonical -/
+theorem constant_spec (n : Nat) :
+    (∀ v, den (mkTrue n) v = true) ∧ mkTrue n = canon n (fun _ => true) ∧
+    (∀ v, den (mkFalse n) v = false) ∧ mkFalse n = canon n (fun _ => false) := by
+  have ht : Sem n (mkTrue n) (fun _ => true) :=
+    (sem_clauseArr n [] (Nat.zero_le n)).congr (fun _ => rfl)
+  exact ⟨ht.den, ht.eq, (sem_mkFalse n).den, (sem_mkFalse n).eq⟩
+
+/-- `mk_var`, `mk_not_var`, `mk_literal` for a variable of the set: the literal, in canonical form -/
+theorem literal_spec (n x : Nat) (hx : x < n) :
+    mkVar n x = canon n (fun v => v x) ∧ (∀ v, den (mkVar n x) v = v x) ∧
+    mkNotVar n x = canon n (fun v => !v x) ∧ (∀ v, den (mkNotVar n x) v = !v x) ∧
+    (∀ b, mkLiteral n x b = canon n (fun v => v x == b) ∧ ∀ v, den (mkLiteral n x b) v = (v x == b)) :=
+  ⟨(sem_mkVar n x hx).eq, (sem_mkVar n x hx).den, (sem_mkNotVar n x hx).eq, (sem_mkNotVar n x hx).den,
+    fun b => ⟨(sem_mkLiteral n x b hx).eq, (sem_mkLiteral n x b hx).den⟩⟩
+
+/-- `mk_var_by_name` / `mk_not_var_by_name` on a faithful set: the literal of the named variable; an unknown
+    name panics -/
+theorem literal_by_name_spec {vs : VarSet} {names : List String} (h : Faithful vs names) :
+    (∀ j (hj : j < names.length), vs.mkVarByName names[j] = .ok (mkVar names.length j) ∧
+      vs.mkNotVarByName names[j] = .ok (mkNotVar names.length j)) ∧
+    (∀ s, s ∉ names → (∃ m, vs.mkVarByName s = .panic m) ∧ ∃ m, vs.mkNotVarByName s = .panic m) := by
+  constructor
+  · intro j hj
+    simp [VarSet.mkVarByName, VarSet.mkNotVarByName, h.byName j hj, VarSet.mkVar, VarSet.mkNotVar, h.numVars]
+  · intro s hs
+    simp [VarSet.mkVarByName, VarSet.mkNotVarByName, h.unknown s hs]
+
+/-! ## single valuations -/
+
+/-- `Bdd::from(valuation)` is satisfied by exactly that valuation (of the first `len` variables) and is
+    canonical -/
+theorem valuation_bdd_spec (bs : List Bool) :
+    (∀ v, den (valuationBdd bs) v = true ↔ ∀ j (h : j < bs.length), v j = bs[j]) ∧
+    valuationBdd bs = canon bs.length (den (valuationBdd bs)) ∧ numVars (valuationBdd bs) = bs.length := by
+  have h := sem_valuationBdd bs
+  refine ⟨?_, Sem.canonical h, h.numVars⟩
+  intro v
+  rw [h.den, litsFn_litsFrom]
+  simp
+
+/-! ## thresholds -/
+
+/-- general form, for ANY list of variables of the set (unsorted, with repetitions): the result is the
+    canonical array of "exactly `k` of the variables below `n` that occur in the list are true" -/
+theorem sat_exactly_k_canon (n k : Nat) (vars : List Nat) (hv : ∀ x ∈ vars, x < n) :
+    mkSatExactlyK n k vars = .ok (canon n (fun v => decide (cnt n vars v = k))) := by
+  obtain ⟨r, hr, hs⟩ := sem_mkSatExactlyK n k vars hv
+  rw [hr, hs.eq]
+
+theorem sat_up_to_k_canon (n k : Nat) (vars : List Nat) (hv : ∀ x ∈ vars, x < n) :
+    mkSatUpToK n k vars = .ok (canon n (fun v => decide (cnt n vars v ≤ k))) := by
+  obtain ⟨r, hr, hs⟩ := sem_mkSatUpToK n k vars hv
+  rw [hr, hs.eq]
+
+/-- `mk_sat_exactly_k(k, vars)` for a duplicate-free list of variables of the set and every `k` (0 and values
+    above the length included): satisfied exactly by the valuations with exactly `k` of the listed variables
+    true; canonical -/
+theorem sat_exactly_k_spec (n k : Nat) (vars : List Nat) (hv : ∀ x ∈ vars, x < n) (hnd : vars.Nodup) :
+    ∃ r, mkSatExactlyK n k vars = .ok r ∧
+      (∀ v, den r v = true ↔ (vars.filter v).length = k) ∧ r = canon n (den r) ∧ numVars r = n := by
+  obtain ⟨r, hr, hs⟩ := sem_mkSatExactlyK n k vars hv
+  refine ⟨r, hr, ?_, Sem.canonical hs, hs.numVars⟩
+  intro v
+  rw [hs.den, decide_eq_true_eq, cnt_eq_filter_length n vars hv hnd]
+
+/-- `mk_sat_up_to_k(k, vars)`: at most `k` of the listed variables are true; canonical -/
+theorem sat_up_to_k_spec (n k : Nat) (vars : List Nat) (hv : ∀ x ∈ vars, x < n) (hnd : vars.Nodup) :
+    ∃ r, mkSatUpToK n k vars = .ok r ∧
+      (∀ v, den r v = true ↔ (vars.filter v).length ≤ k) ∧ r = canon n (den r) ∧ numVars r = n := by
+  obtain ⟨r, hr, hs⟩ := sem_mkSatUpToK n k vars hv
+  refine ⟨r, hr, ?_, Sem.canonical hs, hs.numVars⟩
+  intro v
+  rw [hs.den, decide_eq_true_eq, cnt_eq_filter_length n vars hv hnd]
+
+/-- repetitions and order in the list are irrelevant: two lists with the same members give the same array -/
+theorem sat_list_as_set (n k : Nat) (vars vars' : List Nat) (hv : ∀ x ∈ vars, x < n)
+    (hmem : ∀ x, x ∈ vars ↔ x ∈ vars') :
+    mkSatExactlyK n k vars = mkSatExactlyK n k vars' ∧ mkSatUpToK n k vars = mkSatUpToK n k vars' := by
+  have hv' : ∀ x ∈ vars', x < n := fun x hx => hv x ((hmem x).2 hx)
+  have hc : ∀ v, cnt n vars v = cnt n vars' v := by
+    intro v
+    unfold cnt
+    congr 1
+    apply List.filter_congr
+    intro x _
+    have : vars.contains x = vars'.contains x := by
+      rw [Bool.eq_iff_iff]; simp [hmem x]
+    rw [this]
+  rw [sat_exactly_k_canon n k vars hv, sat_exactly_k_canon n k vars' hv', sat_up_to_k_canon n k vars hv,
+    sat_up_to_k_canon n k vars' hv']
+  exact ⟨by congr 1; exact canon_congr (fun v => by rw [hc v]), by congr 1; exact canon_congr (fun v => by rw [hc v])⟩
+
+/-- a listed variable that is not in the set trips the assertion of `mk_conjunctive_clause` -/
+theorem sat_out_of_range (n k : Nat) (vars : List Nat) (x : Nat) (hx : x ∈ vars) (hxn : n ≤ x) :
+    (∃ m, mkSatExactlyK n k vars = .panic m) ∧ ∃ m, mkSatUpToK n k vars = .panic m := by
+  obtain ⟨m, hm⟩ := clause_panic n vars x hx hxn
+  exact ⟨⟨m, by simp [mkSatExactlyK, hm]⟩, ⟨m, by simp [mkSatUpToK, hm]⟩⟩
+
+/-! ## non-vacuity -/
+
+/-- an acceptable list (with an empty name and a non-ASCII one) -/
+example : Acceptable 65533 ["a", "", "é b"] := ⟨by decide, by decide, by decide⟩
+/-- rejected lists: a duplicate, a forbidden character -/
+example : ¬ Acceptable 65533 ["a", "b", "a"] := fun h => absurd h.2.2 (by decide)
+example : ¬ Acceptable 65533 ["a", "b?"] := fun h => absurd (h.2.1 "b?" (by simp)) (by decide)
+/-- the statement about literals is about a concrete non-trivial array -/
+example : mkVar 3 1 = #[⟨3, 0, 0⟩, ⟨3, 1, 1⟩, ⟨1, 0, 1⟩] := rfl
+example : valuationBdd [true, false] = #[⟨2, 0, 0⟩, ⟨2, 1, 1⟩, ⟨1, 1, 0⟩, ⟨0, 0, 2⟩] := rfl
+/-- the hypotheses of the threshold theorems hold for an unsorted proper subset of the variables -/
+example : (∀ x ∈ [3, 0, 2], x < 4) ∧ [3, 0, 2].Nodup := ⟨by decide, by decide⟩
+/-- … and the theorem pins the concrete result (the kernel evaluates `canon`, not the hash-map based model):
+    exactly one of `x0`, `x2` over three variables -/
+example : mkSatExactlyK 3 1 [2, 0] =
+    .ok #[⟨3, 0, 0⟩, ⟨3, 1, 1⟩, ⟨2, 1, 0⟩, ⟨2, 0, 1⟩, ⟨0, 3, 2⟩] :=
+  (sat_exactly_k_canon 3 1 [2, 0] (by decide)).trans (congrArg Outcome.ok (by decide))
+
 end B.Props.C16
